@@ -561,6 +561,24 @@ def _annotation_form(a):
     return "other"
 
 
+def _elementwise_type_check(c, vparam, fn):
+    """isinstance(<element>, <inner type of the annotation>) evaluated for every element of the value: inside a
+    comprehension / generator (or a for loop) that ranges over the value parameter"""
+    from ..astutil import fully_expanded
+    if "get_args(" not in norm(fully_expanded(c.args[1], fn)):
+        return False
+    elem = norm(c.args[0])
+    x = getattr(c, "_parent", None)
+    while x is not None and x is not fn:
+        if isinstance(x, (ast.GeneratorExp, ast.ListComp, ast.SetComp)):
+            if any(norm(g.target) == elem and norm(g.iter) == vparam for g in x.generators):
+                return True
+        if isinstance(x, ast.For) and norm(x.target) == elem and norm(x.iter) == vparam:
+            return True
+        x = getattr(x, "_parent", None)
+    return False
+
+
 def _inside_comprehension(n):
     x = getattr(n, "_parent", None)
     while x is not None and not isinstance(x, ast.stmt):
@@ -660,7 +678,7 @@ def r_val_forms(E):
         "sign": any(isinstance(c.ops[0], (ast.Lt, ast.LtE)) and vparam in norm(c.left) and "magnitude" in norm(c.left)
                     and norm(c.comparators[0]) == "0" for c in cmps),
         "type": any(norm(c.args[0]) == vparam and norm(_fx(c.args[1], fn)).endswith(".annotation") for c in isins),
-        "list element type": any(norm(c.args[0]) != vparam and _inside_comprehension(c) for c in isins),
+        "list element type": any(_elementwise_type_check(c, vparam, fn) for c in isins),
     }
     for what, ok in present.items():
         res.instances += 1
